@@ -58,7 +58,7 @@ func verifyServer(c *checker, h http.Handler, phase string) []string {
 			for _, a := range c.L.All {
 				if a.D == m.Digest {
 					eff := a.AT
-					if eff == "" {
+					if eff == "" && !a.Index {
 						eff = vh.MTConfig
 					}
 					if m.Size != int64(len(a.Raw)) || m.ArtifactType != eff || m.Annotations["seed"] != a.Ann["seed"] {
